@@ -46,7 +46,7 @@ func runC06(c *core.Ctx) {
 	k := 1
 	graphs := []*world.Graph{world.BaseGraph(0), world.BaseGraph(1)}
 	fsViews := []*world.Graph{graphs[0].FSView(s), graphs[1].FSView(s)}
-	kinds := []world.FaultKind{world.FaultErr, world.FaultGroup, world.FaultExt}
+	kinds := []world.FaultKind{world.FaultErr, world.FaultGroup, world.FaultExt, world.FaultShared}
 	completed := true
 	docsWithin(c, s, world.BaseDocs(), k, 0, func(d *world.Doc, dist int) bool {
 		if c.Expired() {
@@ -94,6 +94,14 @@ func runC06(c *core.Ctx) {
 						for _, ck := range calls {
 							for _, fk := range kinds {
 								plans = append(plans, plan{keyOf(ck): fk})
+							}
+						}
+						if !c.Thorough() && dist == 0 && len(calls) <= 10 {
+							// the same error instance returned by two different calls (an application's sentinel error)
+							for i := range calls {
+								for j := i + 1; j < len(calls); j++ {
+									plans = append(plans, plan{keyOf(calls[i]): world.FaultShared, keyOf(calls[j]): world.FaultShared})
+								}
 							}
 						}
 						if c.Thorough() && len(calls) <= 10 {
@@ -174,7 +182,7 @@ func runC06(c *core.Ctx) {
 				}
 			}
 		}
-		sample(c, func() interface{} { return map[string]interface{}{"query": text, "fault_plans": "every single call of the reference call log x 3 kinds"} })
+		sample(c, func() interface{} { return map[string]interface{}{"query": text, "fault_plans": "every single call of the reference call log x 4 kinds"} })
 		return true
 	})
 	c.R.Bound = fmt.Sprintf("documents within %d mutations of the bases; single faults (thorough: + all pairs for logs <= 10)", k)
